@@ -1,6 +1,6 @@
 (* Compiled on every run of the C13 check: pins each statement and prints its assumptions. *)
 From Coq Require Import List String Bool Arith.
-From SV Require Import c13.Model_C13 c13.Proofs_C13 c13.Properties_C13.
+From SV Require Import c13.Model_C13 c13.Proofs_C13 c13.Proofs2_C13 c13.Proofs3_C13 c13.Proofs4_C13 c13.Properties_C13.
 Import ListNotations.
 Open Scope string_scope.
 Open Scope list_scope.
@@ -19,6 +19,24 @@ Check (C13_instantiate_closed : forall in_scope is_global kinds s, env_clean s -
   forall fuel fb t r, inst in_scope is_global kinds fuel s fb t = Ok r -> closedb (dom s) r = true).
 Check (C13_match_total : forall ps xs imp,
   (exists b k, collect ps xs imp = Ok (b, k)) \/ (exists kind, collect ps xs imp = Err kind)).
+Check (C13_match_sound_complete : forall bound ps xs imp,
+  wf_pattern ps = true -> plain (SL xs imp) = true -> match_list bound ps xs imp = true ->
+  exists b k, collect ps xs imp = Ok (b, k) /\
+    (forall x, In x (dom b) <-> In x (flat_map pvars ps)) /\
+    pinst (PNested ps) b = Some (SL xs imp)).
+Check (C13_match_nonvacuous :
+  let ps := [PSingle "x"; PMany (PNested [PSingle "a"; PMany (PSingle "b")]); PSingle "c"; PRest (PSingle "r")] in
+  let xs := [Lit "0"; SL [Lit "1"; Lit "2"; Lit "3"] false; SL [Lit "4"] false; Lit "6"; Lit "7"] in
+  wf_pattern ps = true /\ plain (SL xs true) = true /\ match_list (fun _ => false) ps xs true = true /\
+  show_env (collect ps xs true) = "[r 7] [c 6] [a (1 4)] [b ((2 3) ())] [x 0]").
+Check (C13_inst_fuel : forall in_scope is_global kinds s t D fuel,
+  ~ In "_" (dom s) ->
+  env_ok in_scope is_global (dom s) D s ->
+  uid_ok in_scope is_global t ->
+  depth t + D <= fuel ->
+  inst in_scope is_global kinds fuel s [] t <> OutOfFuel).
+Check (C13_no_shared_spelling : forall e,
+  (forall v b, In v (ids e) -> In b (ids e) -> fst v = fst b -> snd v = snd b) -> known_class e = false).
 Check (C13_hygiene_refuted :
   exists e, expand_top [W_m; W_m2] ["list"] W_nested = Ok e /\
             show e = "(let ((##t 1)) (let ((##t 2)) (list ##t 0 ##t)))" /\
@@ -43,6 +61,10 @@ Print Assumptions C13_capture_kinds.
 Print Assumptions C13_syntactic_sufficient.
 Print Assumptions C13_instantiate_closed.
 Print Assumptions C13_match_total.
+Print Assumptions C13_match_sound_complete.
+Print Assumptions C13_match_nonvacuous.
+Print Assumptions C13_inst_fuel.
+Print Assumptions C13_no_shared_spelling.
 Print Assumptions C13_hygiene_refuted.
 Print Assumptions C13_hygiene_noncolliding.
 Print Assumptions C13_reftransp_refuted.
